@@ -336,6 +336,87 @@ impl SysComp {
         }
     }
 
+    /// `shortsend <count> <size>`: the I/O half of every batch flush (`net::send_all_datagrams`) on a connected
+    /// AF_UNIX datagram socket with a minimal send buffer, the same `sendmmsg` path as UDP but one that really
+    /// back-pressures (loopback UDP never does): `sendmmsg` accepts only the first few datagrams of a batch. If the
+    /// call reports success, every datagram must have arrived, once, in order, byte for byte (C01: a datagram is
+    /// either transmitted or the failure is reported so that the link is torn down).
+    fn short_send(&mut self, count: &str, size: &str, mon: &mut Mon) {
+        use std::os::fd::OwnedFd;
+        let (Ok(count), Ok(size)) = (count.parse::<usize>(), size.parse::<usize>()) else {
+            mon.count("shortsend-unparsed");
+            return;
+        };
+        if count == 0 || count > 200 || !(16..=1500).contains(&size) {
+            mon.count("shortsend-unparsed");
+            return;
+        }
+        let Ok((near, far)) = socket2::Socket::pair(socket2::Domain::UNIX, socket2::Type::DGRAM, None) else {
+            mon.count("shortsend-skipped:io");
+            return;
+        };
+        let _ = near.set_nonblocking(true);
+        let _ = near.set_send_buffer_size(1);
+        let _ = far.set_nonblocking(true);
+        let bufs: Vec<Vec<u8>> = (0..count)
+            .map(|k| {
+                let mut b = vec![0u8; size];
+                b[..4].copy_from_slice(&(k as u32).to_be_bytes());
+                for (i, x) in b[4..].iter_mut().enumerate() {
+                    *x = (k * 31 + i * 7) as u8;
+                }
+                b
+            })
+            .collect();
+        let outcome: Result<(bool, Vec<Vec<u8>>), &'static str> = self.rt.block_on(async {
+            let far: std::os::unix::net::UnixDatagram = OwnedFd::from(far).into();
+            let Ok(far) = tokio::net::UnixDatagram::from_std(far) else { return Err("shortsend-skipped:io") };
+            let Ok(sock) = BatchUdpSocket::new(near) else { return Err("shortsend-skipped:io") };
+            let (tx, mut rx) = tokio::sync::mpsc::unbounded_channel::<Vec<u8>>();
+            let reader = tokio::spawn(async move {
+                let mut buf = vec![0u8; 4096];
+                while let Ok(n) = far.recv(&mut buf).await {
+                    if tx.send(buf[..n].to_vec()).is_err() {
+                        return;
+                    }
+                }
+            });
+            let refs: Vec<&[u8]> = bufs.iter().map(|b| b.as_slice()).collect();
+            let sent = tokio::time::timeout(std::time::Duration::from_secs(30), srtla_send::net::send_all_datagrams(&sock, &refs)).await;
+            let Ok(sent) = sent else {
+                reader.abort();
+                return Err("shortsend-skipped:timeout");
+            };
+            let mut got: Vec<Vec<u8>> = Vec::new();
+            while got.len() < count {
+                match tokio::time::timeout(std::time::Duration::from_millis(1500), rx.recv()).await {
+                    Ok(Some(p)) => got.push(p),
+                    _ => break,
+                }
+            }
+            while let Ok(Some(p)) = tokio::time::timeout(std::time::Duration::from_millis(30), rx.recv()).await {
+                got.push(p);
+            }
+            reader.abort();
+            Ok((sent.is_ok(), got))
+        });
+        match outcome {
+            Err(why) => mon.count(why),
+            Ok((ok, got)) => {
+                mon.count("shortsend");
+                if ok {
+                    mon.nontrivial();
+                    if got != bufs {
+                        let seqs: Vec<u32> = got.iter().filter(|p| p.len() >= 4).map(|p| u32::from_be_bytes([p[0], p[1], p[2], p[3]])).collect();
+                        mon.fail("C01", "send-all-incomplete", format!("send_all_datagrams reported success for a batch of {count} datagrams of {size} bytes on a back-pressured socket, but {} arrived (numbers {:?}{})", got.len(), &seqs[..seqs.len().min(24)], if seqs.len() > 24 { " ..." } else { "" }));
+                    }
+                } else {
+                    mon.count("shortsend-reported-error");
+                }
+            }
+        }
+    }
+
     /// `liveloop modeswitch`: `run_sender_with_config` on loopback against a minimal receiver (answers the
     /// handshake, echoes keepalives, never sends ACK / SRTLA ACK / NAK) with no client traffic. Enhanced mode
     /// until the once-per-second time-based recovery has visibly lifted the window, then `set_mode(classic)`
@@ -647,6 +728,11 @@ impl Component for SysComp {
     }
 
     fn exec(&mut self, toks: &[&str], mon: &mut Mon) -> String {
+        if let ["shortsend", count, size] = toks {
+            // `net::send_all_datagrams` under real back-pressure (short sendmmsg): monitor only, constant reply
+            self.short_send(count, size, mon);
+            return "shortsend-ok".into();
+        }
         if let ["liveloop", what] = toks {
             // the REAL event loop against an in-process fake receiver, real clock: no model state, constant
             // reply (the model driver answers the same); monitors only
@@ -1809,6 +1895,10 @@ fn gen_case(rng: &mut Rng, tier: Tier, idx: usize) -> Vec<String> {
         // whole-loop scenario (real time, ~8 s): runtime mode switch, then no time-based recovery
         return vec!["liveloop modeswitch".to_string()];
     }
+    if idx % 40 == 33 && matches!(std::env::var("VERIF_PROP").as_deref(), Ok("C01") | Err(_)) {
+        // the I/O half of a flush under real back-pressure (short sendmmsg)
+        return vec![format!("shortsend {} {}", rng.pick(&[16usize, 32, 40, 3, 64]), rng.pick(&[1316usize, 1316, 188, 1500, 64]))];
+    }
     if idx % 29 == 11 {
         return gen_long_rtt_history(rng);
     }
@@ -2047,7 +2137,13 @@ fn gen_case(rng: &mut Rng, tier: Tier, idx: usize) -> Vec<String> {
     let mut used_short: BTreeSet<Vec<u8>> = BTreeSet::new();
     // one return-path type sweep sample per case, somewhere in the data phase
     let sweep_at = rng.range(3, steps.max(4) - 1);
-    let mut seq: u32 = (rng.next_u64() as u32) & 0x7fff_0000;
+    // initial sequence number: anywhere in the 31-bit space, and now and then exactly 0 (a valid ISN; 0 is
+    // also what a zero-filled slot looks like) or a few packets below the top of the space
+    let mut seq: u32 = match rng.below(10) {
+        0 => 0,
+        1 => rng.below(4) as u32,
+        _ => (rng.next_u64() as u32) & 0x7fff_0000,
+    };
     let mut counter: u64 = 1;
     let mut last_hk = now;
     let mut last_flush = now;
